@@ -40,7 +40,7 @@ def gen_case(seed, cfg, index=0):
             op["repeat"] = True
         else:
             fpos = sorted(r.sample(range(nt), r.randint(1, nt)))
-            op = {"base": b, "fpos": fpos, "sigs": [r.choice(SIG_CLASSES) for _ in fpos], "kind": "exec", "salt": 0, "fault": None}
+            op = {"base": b, "fpos": fpos, "sigs": [r.choice(SIG_CLASSES) for _ in fpos], "kind": "exec", "salt": 0, "fault": None, "give_sizes": r.random() < 0.75}
         k = r.random()
         if k < 0.15:
             op["kind"] = "graph"
@@ -162,6 +162,7 @@ def exec_case(case, cfg):
     log_all = []
     bad = []
     plain_ok = {}
+    axis_sizes = {}
     seen_keys = set()
     prev_kind = None
     cs = case.get("env", {}).get("cache_size", cfg.get("env", {}).get("cache_size", -1))
@@ -172,6 +173,9 @@ def exec_case(case, cfg):
         if b not in plain_ok:
             o = outcome.capture(lambda: workload.execute(einx, d, {}))
             plain_ok[b] = o["kind"] == "val"
+            # harness aid: the axis sizes of the base call, to be passed as keywords when a factory replaces the only source of a size
+            ax = outcome.capture(lambda: einx.solve_axes(d["desc"].split("->")[0], *[workload.to_array(t) for t in d["tensors"]], **{k: workload.materialise_kw(v) for k, v in d["kw"].items() if k != "shift"}))
+            axis_sizes[b] = {k: int(v["data"][0]) for k, v in ax["items"].items() if v["shape"] == [] and "." not in k and k.isidentifier()} if ax["kind"] == "map" else {}
         if not plain_ok[b]:
             stats["skipped_invalid_base"] += 1
             continue
@@ -213,6 +217,8 @@ def exec_case(case, cfg):
             else:
                 args.append(a.copy())
         kw = {k: workload.materialise_kw(v) for k, v in d["kw"].items()}
+        if op.get("give_sizes") and kind != "underdetermined":
+            kw.update({k: v for k, v in axis_sizes[b].items() if k not in kw})
         allfac = len(fpos) == len(arrays)
         if allfac:
             kw["backend"] = "numpy"
